@@ -27,6 +27,7 @@ func registerC16() {
 			"record.distance of records whose compressed_speed_distance expands is not compared between the 8 runs (known finding F5: it depends on the process-lifetime accumulator; decided in C18)",
 		},
 		MinNontrivial: 300,
+		Families386:   []string{"chains"}, // once more in a GOARCH=386 binary (32-bit int), when the host can run it
 		Families: []lib.Family{
 			{Name: "streams", N: func(t string) uint64 { return tierN(t, 40000, 1000000) }, Run: c16Case},
 			{Name: "chains", N: func(t string) uint64 { return tierN(t, 4000, 100000) }, Run: c16Chain},
